@@ -43,6 +43,10 @@ def _cases(draw):
     d = {"cell": cell, "pbc": pbc, "shape": shape, "axis": ax, "frac": frac, "Z": Z, "radii": rk, "custom": custom, "thr": thr, "size": size}
     if draw(st.integers(0, 2)) == 0:
         d["shifts"] = [[draw(st.integers(-5, 5)) for _ in range(3)] for _ in range(n)]
+    if draw(st.integers(0, 3)) == 0:
+        # a non-periodic cell vector leaning strongly along a periodic one (b' = b + k a): a legitimate description of the same
+        # slab / wire in which atoms inside the cell can be many periodic vectors apart
+        d["lean"] = [draw(st.integers(0, 2)), draw(st.integers(1, 2)), draw(st.integers(-10, 10))]
     t = draw(st.sampled_from(["latshift", "supercell", "rebasis", "rigid", "permute"]))
     tr = {"kind": t}
     if t == "supercell":
@@ -94,6 +98,12 @@ def run_case(desc):
     out = Outcome()
     cell = gc.build_cell(desc["cell"])
     pbc = np.array(desc["pbc"], bool)
+    if desc.get("lean"):
+        i, dj, k = desc["lean"]
+        j = (i + dj) % 3
+        if (not pbc[i]) and pbc[j]:
+            cell = cell.copy()
+            cell[i] = cell[i] + k * cell[j]
     Z = np.array(desc["Z"], int)
     n = len(Z)
     f = shape_frac(desc)
@@ -102,7 +112,7 @@ def run_case(desc):
     thr = float(desc["thr"])
     h = gc.heights(cell)
     hmin = h[pbc].min() if pbc.any() else np.inf
-    if (thr + 2 * radii.max()) / hmin > 6:
+    if (thr + 2 * radii.max()) / hmin > (14 if n <= 8 else 6):
         out.discard = "too-many-images"
         return out
     cut = thr + 2 * radii.max()
@@ -131,7 +141,7 @@ def run_case(desc):
         out.discard = "rankQ!=rankGF2"
         return out
     expected = rq if pbc.any() or rq is None else 0
-    out.cls("shape=" + desc["shape"], "npbc=%d" % pbc.sum(), "dim=%s" % expected, "radii=" + desc["radii"], "outside" if shifted else "inside", "size=" + desc["size"])
+    out.cls("shape=" + desc["shape"], "npbc=%d" % pbc.sum(), "dim=%s" % expected, "radii=" + desc["radii"], "outside" if shifted else "inside", "size=" + desc["size"], *(["leaning-nonperiodic-vector"] if desc.get("lean") else []))
     out.nontrivial = bool((expected is not None and pbc.any()) or shifted)
 
     def rad_for(idx=None, rep=1):
